@@ -74,6 +74,12 @@ def toks(alpha):
     return [{"t": t, "n": n, "s": s} for t, n, s in alpha]
 
 
+# token strings that once broke the library (found by a deeper tier): always replayed, in every tier
+REGRESSION = [("T_PROPERTY", "property", True, "{ } control (", "regression"),            # expr_nary(LIST, 0): PrettyPrinter read the back of an empty stack (fix 9f040b5)
+              ("T_PROPERTY", "property", True, "{ } control : A[] true", "regression"),
+              ("T_PROPERTY", "property", True, "{ i, j } control : A[] true", "regression")]
+
+
 def lr_candidates(c, quick, lx, gen):
     """-> [(start, part, newxta, text, why)]"""
     out = []
@@ -215,6 +221,7 @@ def run(tier):
     rest = [x for x in cands if x[4] == "behaviour"]
     rnd.shuffle(rest)
     keep += rest[:(3000 if quick else 40000)]
+    keep += [x for x in REGRESSION if x not in keep]
     scaffold_xml = xmlgen.render_xml(QUERY_SCAFFOLD)
     for start, part, newxta, text, why in keep:
         rep = {"entry": part, "start": start, "newxta": newxta, "text": text, "why": why}
